@@ -226,3 +226,17 @@ Example Pipeline_example_noninterference :
   AdjRIBIn.tab (ss_in _ (ex_sess_at st 0)) /\
   length (AdjRIBIn.tab (ss_in _ (ex_sess_at st 0))) = 1.
 Proof. cbv zeta. split; vm_compute; reflexivity. Qed.
+
+(* 3b is not vacuous: on the example (the listener after both clients announced and its sender was drained) every
+   hypothesis of Pipeline_peer_view_converges holds - C08's guards on the recorded views, C10's four hypotheses on the
+   recorded labels, the interface condition - and the theorem gives the peer's view and the table *)
+Example Pipeline_example_applies :
+  (forall p pid, peer_view _ ex_s2 p pid = keyed_table _ ex_tagf (sc_us _ ex_c2) (ss_out _ ex_s2) p pid) /\
+  peer_view _ ex_s2 1%N 0%N = Some (ex_tagf_of 201326594 300 167772162).
+Proof.
+  destruct ex_state_facts as [HD [Hc [Hs [Hu [HE Hdr]]]]].
+  destruct ex_c10_guards as [G1 [G2 [G3 G4]]].
+  split; [|vm_compute; reflexivity].
+  exact (proj1 (Pipeline_peer_view_converges _ AdjRIBOut.interp ex_sel ex_tagf ex_sel_ok ex_cfgs (ex_evs1 ++ ex_drain2a) 2 ex_c2 ex_s2
+                  HD Hc Hs Hu ex_guards_hold HE G1 G2 G3 G4 ex_log_tracks Hdr)).
+Qed.
